@@ -1820,14 +1820,34 @@ const gridRealUnits = 9 // the entries of gridUnits before the unit-less / unkno
 // tagfocus/tagignore range expression in one of the forms a, a:, :a, a:b whose bounds are such
 // multiples (or neighbours) written in the filter unit. Unit pairs: same, filter finer, filter
 // coarser, unknown / none, cross-family.
-func genUnitGrid(r *Rng) (*profile.Profile, string, string) {
+func genUnitGrid(r *Rng, forceExact bool) (*profile.Profile, string, string) {
 	lu := gridUnits[r.Intn(gridRealUnits)]
 	if r.Chance(15) {
 		lu = gridUnits[gridRealUnits+r.Intn(2)] // label without unit / with an unknown unit
 	}
 	var fu unitDef
 	pair := ""
-	switch r.Intn(8) {
+	sel := r.Intn(8)
+	if forceExact {
+		// label in a finer unit of the time (mostly) or memory family, filter in a coarser one
+		fam := 1
+		if r.Chance(25) {
+			fam = 0
+		}
+		var us []unitDef
+		for _, u := range gridUnits[:gridRealUnits] {
+			if u.family == fam {
+				us = append(us, u)
+			}
+		}
+		i := r.Intn(len(us) - 1)
+		lu = us[i]
+		fu = us[i+1+r.Intn(len(us)-1-i)]
+		pair = "filter-coarser"
+		sel = -1
+	}
+	switch sel {
+	case -1:
 	case 0:
 		fu, pair = lu, "same"
 	case 1, 2, 3: // same family, different unit (coarser twice as often: that is where fractions arise)
@@ -1876,7 +1896,7 @@ func genUnitGrid(r *Rng) (*profile.Profile, string, string) {
 	}
 	m := int64(r.Intn(6)) - 2 // base multiple, also negative and zero
 	var vals []int64
-	exact := num > den && r.Chance(60)
+	exact := num > den && (forceExact || r.Chance(60))
 	if exact {
 		// EXACT multiples k·unit of the coarser filter unit, k = 1..64: converting them must give the
 		// exact number k (the filter compares with ==, >=, <=), whatever the size of the unit ratio
@@ -2295,7 +2315,7 @@ func runC06(c *Ctx) {
 	profs := make([]*profile.Profile, nCli)
 	for i := range cases {
 		if i >= nCli-nGrid { // unit grid: range form × unit pair × values around unit multiples
-			p, expr, tag := genUnitGrid(r)
+			p, expr, tag := genUnitGrid(r, i%2 == 0)
 			var buf bytes.Buffer
 			p.Write(&buf)
 			p, err = profile.ParseData(buf.Bytes())
